@@ -56,3 +56,210 @@ Proof.
     cbn [List.filter fst]. destruct (Nat.eqb j t); cbn; now rewrite IHs.
   - rewrite nth_overflow; [reflexivity|]. now rewrite map_length, seq_length.
 Qed.
+
+(* ---------------------------------------------------------------- LabelTarget *)
+Open Scope list_scope.
+Definition pmap (idx : nat) (pending : list string) : list (string * nat) := List.map (fun l => (l, idx)) pending.
+
+Lemma lt_ok : forall ns idx target pending tg,
+  label_target_go true ns idx target pending = OK tg -> tg = target ++ pmap idx pending ++ lab_idx ns idx.
+Proof.
+  induction ns as [|n ns IH]; intros idx target pending tg H; cbn [label_target_go lab_idx] in *.
+  - destruct pending; [|discriminate]. inversion H. cbn. now rewrite app_nil_r.
+  - destruct n as [l|ls|i].
+    + destruct (_ || _); [discriminate|]. apply IH in H. rewrite H. unfold pmap. rewrite List.map_app, <- !app_assoc. reflexivity.
+    + now apply IH in H.
+    + apply IH in H. rewrite H. cbn [pmap List.map app]. now rewrite <- app_assoc.
+Qed.
+
+Lemma assoc_in tg l : (exists t, assoc tg l = Some t) <-> In l (List.map fst tg).
+Proof.
+  induction tg as [|[k v] tg IH]; cbn [assoc List.map In fst]; [split; [intros [t H]; discriminate|contradiction]|].
+  destruct (String.eqb_spec k l) as [->|Hne].
+  - split; [auto|]. intros _. eauto.
+  - split; [intro H; right; apply IH; exact H|intros [H|H]; [congruence|apply IH; exact H]].
+Qed.
+Lemma existsb_eqb_in l ls : existsb (String.eqb l) ls = true <-> In l ls.
+Proof. rewrite existsb_exists. split; [intros (x & Hx & E); apply String.eqb_eq in E; now subst|intro H; exists l; split; [exact H|apply String.eqb_refl]]. Qed.
+
+Lemma lt_nodup : forall ns idx target pending tg,
+  label_target_go true ns idx target pending = OK tg -> NoDup (List.map fst target ++ pending) -> NoDup (List.map fst tg).
+Proof.
+  induction ns as [|n ns IH]; intros idx target pending tg H Hnd; cbn [label_target_go] in *.
+  - destruct pending; [|discriminate]. inversion H; subst. now rewrite app_nil_r in Hnd.
+  - destruct n as [l|ls|i].
+    + destruct (match assoc target l with Some _ => true | None => false end || (true && existsb (String.eqb l) pending)) eqn:E; [discriminate|].
+      apply orb_false_iff in E as [E1 E2]. cbn [andb] in E2.
+      apply (IH _ _ _ _ H). rewrite app_assoc. apply NoDup_app. split; [exact Hnd|]. split; [|apply NoDup_singleton].
+      intros x Hx Hk. apply elem_of_list_singleton in Hk. subst x. apply elem_of_list_In in Hx. apply in_app_or in Hx as [Hx|Hx].
+      * apply assoc_in in Hx as [t Ht]. rewrite Ht in E1. discriminate.
+      * apply existsb_eqb_in in Hx. congruence.
+    + apply (IH _ _ _ _ H Hnd).
+    + apply (IH _ _ _ _ H). rewrite app_nil_r, List.map_app. unfold pmap. rewrite List.map_map. cbn [fst]. now rewrite List.map_id.
+Qed.
+
+Lemma lt_bound : forall ns idx target pending tg,
+  label_target_go true ns idx target pending = OK tg ->
+  forall l t, In (l, t) (pmap idx pending ++ lab_idx ns idx) -> (t < idx + ninstr ns)%nat.
+Proof.
+  induction ns as [|n ns IH]; intros idx target pending tg H l t Hin; cbn [label_target_go lab_idx] in *.
+  - destruct pending; [|discriminate]. destruct Hin.
+  - destruct n as [l0|ls|i].
+    + destruct (_ || _); [discriminate|]. specialize (IH _ _ _ _ H l t). unfold ninstr in *. change (instructions (NLabel l0 :: ns)) with (instructions ns). apply IH.
+      unfold pmap. rewrite List.map_app, <- app_assoc. exact Hin.
+    + specialize (IH _ _ _ _ H l t Hin). exact IH.
+    + apply in_app_or in Hin as [Hin|Hin].
+      * unfold pmap in Hin. apply in_map_iff in Hin as (x & [= _ <-] & _). unfold ninstr. change (instructions (NInstr i :: ns)) with (i :: instructions ns). cbn [length]. lia.
+      * specialize (IH _ _ _ _ H l t). cbn [pmap List.map app] in IH. specialize (IH Hin). unfold ninstr in *. change (instructions (NInstr i :: ns)) with (i :: instructions ns). cbn [length]. lia.
+Qed.
+
+(* errors of LabelTarget: a duplicate label, or a label with no following instruction *)
+Lemma has_dup_spec ls : has_dup ls = false <-> NoDup ls.
+Proof.
+  induction ls as [|x ls IH]; cbn [has_dup]; [split; [constructor|reflexivity]|].
+  rewrite orb_false_iff, IH. split.
+  - intros [H1 H2]. constructor; [|exact H2]. intro Hin. apply elem_of_list_In in Hin. apply existsb_eqb_in in Hin. congruence.
+  - intro H. inversion H as [|? ? Hni Hnd]; subst. split; [|assumption]. destruct (existsb (String.eqb x) ls) eqn:E; [|reflexivity]. apply existsb_eqb_in in E. exfalso. apply Hni. now apply elem_of_list_In.
+Qed.
+Lemma lab_idx_labels ns : forall i, List.map fst (lab_idx ns i) = labels_of ns.
+Proof. induction ns as [|n ns IH]; intro i; [reflexivity|]. destruct n; cbn [lab_idx labels_of flat_map List.map fst app]; rewrite ?IH; reflexivity. Qed.
+
+Lemma lt_err : forall ns idx target pending e,
+  label_target_go true ns idx target pending = Err e ->
+  (e = EDupLabel /\ ~ NoDup (List.map fst target ++ pending ++ labels_of ns))
+  \/ (e = EEndsWithLabel /\ (pending <> [] /\ ninstr ns = 0%nat \/ label_without_instr ns = true)).
+Proof.
+  induction ns as [|n ns IH]; intros idx target pending e H; cbn [label_target_go] in *.
+  - destruct pending; [discriminate|]. inversion H. right. split; [reflexivity|]. left. split; [discriminate|reflexivity].
+  - destruct n as [l|ls|i].
+    + destruct (match assoc target l with Some _ => true | None => false end || (true && existsb (String.eqb l) pending)) eqn:E.
+      * inversion H. left. split; [reflexivity|]. intro Hnd. cbn [labels_of flat_map app] in Hnd.
+        apply orb_true_iff in E as [E|E].
+        -- destruct (assoc target l) as [t|] eqn:Ea; [|discriminate].
+           assert (Hin : In l (List.map fst target)) by (apply assoc_in; eauto).
+           apply NoDup_app in Hnd as (_ & Hd & _). apply (Hd l); [apply elem_of_list_In; exact Hin|]. apply elem_of_list_In. apply in_or_app. right. now left.
+        -- cbn [andb] in E. apply existsb_eqb_in in E. apply NoDup_app in Hnd as (_ & _ & Hnd).
+           apply NoDup_app in Hnd as (_ & Hd & _). apply (Hd l); [apply elem_of_list_In; exact E|]. apply elem_of_list_In. now left.
+      * destruct (IH _ _ _ _ H) as [[-> Hd]|[-> Hd]].
+        -- left. split; [reflexivity|]. intro Hnd. apply Hd. cbn [labels_of flat_map app] in Hnd.
+           rewrite <- app_assoc. cbn [app]. exact Hnd.
+        -- right. split; [reflexivity|]. cbn [label_without_instr]. destruct Hd as [[_ Hz]|Hw].
+           ++ right. unfold ninstr in *. cbn [instructions flat_map app] in *. rewrite Hz. reflexivity.
+           ++ right. rewrite Hw. apply orb_true_r.
+    + destruct (IH _ _ _ _ H) as [[-> Hd]|[-> Hd]]; [left|right]; (split; [reflexivity|]); auto.
+    + destruct (IH _ _ _ _ H) as [[-> Hd]|[-> Hd]].
+      * left. split; [reflexivity|]. intro Hnd. apply Hd. rewrite List.map_app. unfold pmap. rewrite List.map_map. cbn [fst]. rewrite List.map_id.
+        cbn [labels_of flat_map app] in Hnd. cbn [app]. rewrite <- app_assoc. exact Hnd.
+      * right. split; [reflexivity|]. destruct Hd as [[Hp _]|Hw]; [congruence|]. right. exact Hw.
+Qed.
+
+Lemma label_without_instr_bound ns : forall idx, label_without_instr ns = true <-> exists l t, In (l, t) (lab_idx ns idx) /\ (idx + ninstr ns <= t)%nat.
+Proof.
+  induction ns as [|n ns IH]; intro idx; cbn [label_without_instr lab_idx]; [split; [discriminate|intros (l & t & [] & _)]|].
+  destruct n as [l0|ls|i].
+  - rewrite orb_true_iff, (IH idx). unfold ninstr. change (instructions (NLabel l0 :: ns)) with (instructions ns). split.
+    + intros [Hz|(l & t & Hin & Hb)].
+      * exists l0, idx. split; [now left|]. apply Nat.eqb_eq in Hz. unfold ninstr in Hz. lia.
+      * exists l, t. split; [now right|exact Hb].
+    + intros (l & t & [[= <- <-]|Hin] & Hb).
+      * left. apply Nat.eqb_eq. unfold ninstr. lia.
+      * right. eauto.
+  - rewrite (IH idx). unfold ninstr. change (instructions (NComment ls :: ns)) with (instructions ns). reflexivity.
+  - rewrite (IH (S idx)). unfold ninstr. change (instructions (NInstr i :: ns)) with (i :: instructions ns). cbn [length]. split; intros (l & t & Hin & Hb); exists l, t; (split; [exact Hin|lia]).
+Qed.
+Lemma lab_idx_ge ns : forall idx l t, In (l, t) (lab_idx ns idx) -> (idx <= t)%nat.
+Proof.
+  induction ns as [|n ns IH]; intros idx l t Hin; cbn [lab_idx] in Hin; [destruct Hin|]. destruct n.
+  - destruct Hin as [[= _ <-]|Hin]; [lia|eauto].
+  - eauto.
+  - apply IH in Hin. lia.
+Qed.
+
+(* LabelTarget succeeds iff no label is duplicated and every label has a following instruction,
+   and then binds exactly the labels, each to the first instruction after it *)
+Theorem label_target_spec ns :
+  match label_target ns with
+  | OK tg => tg = lab_idx ns 0 /\ has_duplicate_label ns = false /\ label_without_instr ns = false
+  | Err e => has_duplicate_label ns = true \/ label_without_instr ns = true
+  | Panic _ => False
+  end.
+Proof.
+  unfold label_target, label_target_with. destruct (label_target_go true ns 0 [] []) as [tg|e|pp] eqn:E.
+  - pose proof (lt_ok _ _ _ _ _ E) as Htg. cbn [pmap List.map app] in Htg. split; [exact Htg|]. split.
+    + unfold has_duplicate_label. apply has_dup_spec. rewrite <- (lab_idx_labels ns 0), <- Htg.
+      apply (lt_nodup _ _ _ _ _ E). constructor.
+    + destruct (label_without_instr ns) eqn:Ew; [|reflexivity]. exfalso.
+      apply (label_without_instr_bound ns 0) in Ew as (l & t & Hin & Hb).
+      pose proof (lt_bound _ _ _ _ _ E l t) as Hlt. cbn [pmap List.map app] in Hlt. specialize (Hlt Hin). lia.
+  - destruct (lt_err _ _ _ _ _ E) as [[_ Hd]|[_ Hd]].
+    + left. unfold has_duplicate_label. destruct (has_dup (labels_of ns)) eqn:Eh; [reflexivity|]. exfalso. apply Hd. cbn [List.map app]. now apply has_dup_spec.
+    + right. destruct Hd as [[Hp _]|Hw]; [congruence|exact Hw].
+  - exfalso. clear -E. revert E. generalize 0%nat, (@nil (string * nat)), (@nil string).
+    induction ns as [|n ns IH]; intros idx tg pd E; cbn [label_target_go] in E; [destruct pd; discriminate|].
+    destruct n; [destruct (_ || _); [discriminate|]|..]; eauto.
+Qed.
+
+(* ---------------------------------------------------------------- the model meets the specification *)
+Lemma list_eqb_refl {A} (eqb : A -> A -> bool) (Hr : forall x, eqb x x = true) l : list_eqb eqb l l = true.
+Proof. induction l as [|x l IH]; cbn; [reflexivity|]. now rewrite Hr, IH. Qed.
+Lemma succs_eqb_refl s : succs_eqb s s = true.
+Proof.
+  apply list_eqb_refl. intro x. apply list_eqb_refl. intros [y|]; cbn; [apply Nat.eqb_refl|reflexivity].
+Qed.
+Lemma preds_eqb_refl s : preds_eqb s s = true.
+Proof. apply list_eqb_refl. intro x. apply list_eqb_refl. apply Nat.eqb_refl. Qed.
+
+Definition spec_succ_tg (tg : list (string * nat)) (n i : nat) (cur : instr) : list (option nat) :=
+  (if is_branch cur then match target_label cur with Some l => match assoc tg l with Some t => [Some t] | None => [] end | None => [] end else [])
+  ++ (if is_terminal cur then [] else if is_unconditional_branch cur then [] else [if Nat.ltb (S i) n then Some (S i) else None]).
+
+Lemma cfg_succs_map tg n : forall is i0 succs, cfg_succs tg n i0 is = OK succs ->
+  succs = List.map (fun p => spec_succ_tg tg n (fst p) (snd p)) (index_list_from i0 is)
+  /\ forallb (fun i => negb (is_branch i) || match target_label i with Some l => match assoc tg l with Some _ => true | None => false end | None => false end) is = true.
+Proof.
+  induction is as [|c is IH]; intros i0 succs H; cbn [cfg_succs index_list_from List.map forallb] in *.
+  - inversion H. auto.
+  - destruct (succ_of tg n i0 c) as [s| |] eqn:Es; cbn [res_bind] in H; try discriminate.
+    destruct (cfg_succs tg n (S i0) is) as [rest| |] eqn:Er; cbn [res_bind] in H; try discriminate.
+    inversion H; subst. destruct (IH (S i0) rest Er) as [-> Hb]. apply succ_of_spec in Es as [-> Hbr]. split; [reflexivity|].
+    rewrite Hb, andb_true_r. destruct (is_branch c) eqn:Eb; [|reflexivity]. destruct (Hbr eq_refl) as (l & t & -> & ->). reflexivity.
+Qed.
+Lemma cfg_succs_err tg n : forall is i0 e, cfg_succs tg n i0 is = Err e ->
+  existsb (fun i => is_branch i && match target_label i with None => true | Some _ => false end) is
+  || existsb (fun i => is_branch i && match target_label i with Some l => match assoc tg l with None => true | Some _ => false end | None => false end) is = true.
+Proof.
+  induction is as [|c is IH]; intros i0 e H; cbn [cfg_succs existsb] in *; [discriminate|].
+  destruct (succ_of tg n i0 c) as [s|e'|] eqn:Es; cbn [res_bind] in H.
+  - destruct (cfg_succs tg n (S i0) is) as [rest|e''|] eqn:Er; cbn [res_bind] in H; try discriminate.
+    specialize (IH _ _ Er). apply orb_true_iff in IH as [IH|IH]; rewrite IH, ?orb_true_r; reflexivity.
+  - apply succ_of_err in Es as [Hb [[Hl _]|(l & Hl & Ha & _)]]; rewrite Hb, Hl, ?Ha; cbn; rewrite ?orb_true_r; reflexivity.
+  - discriminate.
+Qed.
+Lemma cfg_succs_no_panic tg n : forall is i0 pp, cfg_succs tg n i0 is <> Panic pp.
+Proof.
+  induction is as [|c is IH]; intros i0 pp H; cbn [cfg_succs] in H; [discriminate|].
+  unfold succ_of in H. destruct (is_branch c); [destruct (target_label c) as [l|]; [destruct (assoc tg l)|]|]; cbn [res_bind] in H; try discriminate;
+    destruct (cfg_succs tg n (S i0) is) eqn:Er; cbn [res_bind] in H; try discriminate; eapply IH; eauto.
+Qed.
+
+Theorem cfg_model_meets_spec_lemma ns : forallb opcode_flags_ok (instructions ns) = true -> cfg_spec_b ns (cfg_model ns) = true.
+Proof.
+  intro Hflags. unfold cfg_spec_b. rewrite Hflags. cbn [andb]. unfold cfg_model, cfg_model_with.
+  pose proof (label_target_spec ns) as HL. unfold label_target in HL.
+  destruct (label_target_with true ns) as [tg|e|pp]; [|unfold cfg_should_fail; destruct HL as [-> | ->]; rewrite ?orb_true_r; reflexivity|contradiction].
+  destruct HL as (-> & Hd & Hw). unfold cfg.
+  destruct (cfg_succs (lab_idx ns 0) (length (instructions ns)) 0 (instructions ns)) as [succs|e|pp] eqn:Ec.
+  - destruct (cfg_succs_map _ _ _ _ _ Ec) as [-> Hb]. rewrite preds_eqb_refl, andb_true_r.
+    apply andb_true_iff. split.
+    + unfold cfg_should_fail. rewrite Hd, Hw. cbn [orb]. apply negb_true_iff. apply orb_false_iff. split.
+      * unfold branch_nonlabel. apply not_true_is_false. intro Hex. apply existsb_exists in Hex as (i & Hi & Hx).
+        rewrite forallb_forall in Hb. specialize (Hb i Hi). destruct (is_branch i); [|discriminate]. destruct (target_label i); [discriminate|]. discriminate.
+      * unfold branch_undefined, spec_target. apply not_true_is_false. intro Hex. apply existsb_exists in Hex as (i & Hi & Hx).
+        rewrite forallb_forall in Hb. specialize (Hb i Hi). destruct (is_branch i); [|discriminate]. destruct (target_label i) as [l|]; [|discriminate].
+        destruct (assoc (lab_idx ns 0) l); discriminate.
+    + unfold index_list. replace (List.map (fun p => spec_succs ns (fst p) (snd p)) (index_list_from 0 (instructions ns)))
+        with (List.map (fun p => spec_succ_tg (lab_idx ns 0) (length (instructions ns)) (fst p) (snd p)) (index_list_from 0 (instructions ns))); [apply succs_eqb_refl|reflexivity].
+  - apply cfg_succs_err in Ec. unfold cfg_should_fail, branch_nonlabel, branch_undefined, spec_target.
+    apply orb_true_iff in Ec as [-> | ->]; rewrite ?orb_true_r; reflexivity.
+  - exfalso. eapply cfg_succs_no_panic; eauto.
+Qed.
